@@ -27,6 +27,7 @@ DOC = {
     "rules": {
         "C01-R1": "residual_nnls returns (clp, data - matrix @ clp) with clp = scipy.optimize.nnls(matrix, data)[0]",
         "C01-R2": "residual_variable_projection: qr,tau = dgeqrf(matrix); t = dormqr('L','T',qr,tau,data); clp = dtrtrs(qr,t) read before zeroing; t[0:n] = 0 with n = matrix.shape[1]; residual = dormqr('L','N',qr,tau,t); returns (clp[:n], residual); inputs are not overwritten",
+        "C01-R4": "the matrix and the data handed to the kernel went through the same preparation: weights (dataset weight, else model weights) are complete before the data is weighted once, the matrix is scaled, reduced and weighted in the fixed order (shared with C02-R2)",
         "C01-R3": "SUPPORTED_RESIUDAL_FUNCTIONS has exactly the residual_function options of the dataset group model and maps them to the right kernels; calculate_residual forwards (matrix, data) in order to the function selected in the constructor",
     },
     "declined": ["numerical optimality / KKT for ill-conditioned matrices (values; LAPACK and scipy.optimize.nnls are the trusted base)"],
@@ -201,9 +202,58 @@ def r3(ctx) -> None:
     ctx.ob("C01-R3", "dispatch/option-reaches-group", ok, gg, gg.node, "the dataset group carries the option of its group model", construct="DatasetGroup(residual_function=group_model.residual_function, ...)")
 
 
+def r3_sites(ctx) -> None:
+    """Every linear sub-problem of the package is solved through the dispatcher."""
+    repo = ctx.repo
+    kernels = {"glotaran.optimization.variable_projection.residual_variable_projection", "glotaran.optimization.nnls.residual_nnls"}
+    n_direct = 0
+    for fi in repo.functions.values():
+        if not fi.rel.startswith(("glotaran/optimization/", "glotaran/simulation/", "glotaran/builtin/", "glotaran/project/", "glotaran/model/")):
+            continue
+        for c in lib.calls(fi, nested=True):
+            q = lib.resolved(repo, fi, c.func) or ""
+            if q in kernels:
+                n_direct += 1
+                ctx.ob("C01-R3", f"{fi.short}/no-direct-kernel-call", False, fi, c,
+                       "a kernel called directly ignores the group's residual_function option (e.g. NNLS requested, unconstrained solution returned); "
+                       "kernels are reached only through EstimationProvider.calculate_residual", construct=lib.short(c, 100))
+            if isinstance(c.func, ast.Attribute) and c.func.attr == "_residual_function" and fi.short != "EstimationProvider.calculate_residual":
+                ctx.ob("C01-R3", f"{fi.short}/selected-kernel-called-only-by-dispatcher", False, fi, c,
+                       "the selected kernel is invoked only by calculate_residual", construct=lib.short(c, 100))
+    ctx.ob("C01-R3", "package/no-direct-kernel-call", n_direct == 0, None, repo.module(EST).tree,
+           "no function outside the dispatch table calls residual_variable_projection / residual_nnls", construct=f"{n_direct} direct calls")
+    # each estimation site solves through the dispatcher and stores (clp, residual) of that call
+    sites = []
+    for fi in repo.functions.values():
+        if fi.rel != EST:
+            continue
+        for c in lib.method_calls(fi, "calculate_residual"):
+            if lib.chain_text(c.func.value) == "self":
+                sites.append((fi, c))
+    ctx.sites("C01-R3", "linear sub-problems solved through calculate_residual", len(sites), 3)
+    est_fns = {"EstimationProviderUnlinked.calculate_full_model_estimation", "EstimationProviderUnlinked.calculate_estimation", "EstimationProviderLinked.estimate"}
+    have = {fi.short for fi, _ in sites}
+    for nm in sorted(est_fns):
+        f = ctx.fn(EST, nm)
+        ctx.ob("C01-R3", f"{nm}/solves-through-dispatcher", nm in have, f, f.node,
+               "this estimation path obtains clps and residual from self.calculate_residual(matrix, data)", construct="self.calculate_residual(...)")
+    for fi, c in sites:
+        st = lib.stmt_of(c)
+        ok = isinstance(st, ast.Assign) and isinstance(st.targets[0], ast.Tuple) and len(st.targets[0].elts) == 2 and len(c.args) == 2
+        ctx.ob("C01-R3", f"{fi.short}/stores-clp-and-residual-of-the-call", ok, fi, st,
+               "(clps, residual) are taken together from one call for one (matrix, data) pair", construct=lib.short(st, 110))
+
+
+def r4(ctx) -> None:
+    """The (matrix, data) pair given to the kernel is the weighted pair of one weight: preparation pipeline (shared with C02-R2)."""
+    from glint.rules import c02
+
+    c02.r2(ctx, rule="C01-R4")
+
+
 def check(ctx) -> None:
     for g in check.groups:
         g(ctx)
 
 
-check.groups = [r1, r2, r3]
+check.groups = [r1, r2, r3, r3_sites, r4]
